@@ -80,9 +80,13 @@ func (m *Model) PullDemand(ctx context.Context, opts ...resource.ReadOption) <-c
 		defer close(send)
 		for change := range recv {
 			demand := change.Value.(*traits.ElectricDemand)
-			send <- PullDemandChange{
+			select {
+			case send <- PullDemandChange{
 				Value:      demand,
 				ChangeTime: change.ChangeTime,
+			}:
+			case <-ctx.Done():
+				return
 			}
 		}
 	}()
@@ -123,9 +127,13 @@ func (m *Model) PullActiveMode(ctx context.Context, opts ...resource.ReadOption)
 		defer close(send)
 		for change := range recv {
 			activeMode := change.Value.(*traits.ElectricMode)
-			send <- PullActiveModeChange{
+			select {
+			case send <- PullActiveModeChange{
 				ActiveMode: activeMode,
 				ChangeTime: change.ChangeTime,
+			}:
+			case <-ctx.Done():
+				return
 			}
 		}
 	}()
@@ -356,7 +364,11 @@ func (m *Model) PullModes(ctx context.Context, opts ...resource.ReadOption) <-ch
 				NewValue:   newValue,
 				OldValue:   oldValue,
 			}
-			send <- pullChange
+			select {
+			case send <- pullChange:
+			case <-ctx.Done():
+				return
+			}
 		}
 	}()
 
